@@ -608,6 +608,34 @@ theorem month_from_prim_iff (ty : Conv.PrimTy) (n : Int) (m : Month) :
   case u8 | u16 | u64 => exact month_from_u64_iff n m
   case u32 => exact month_from_u32_table_iff n m
 
+/-- numbering functions and numeric conversions are mutually inverse, through every entry point:
+converting the number of a value gives the value back, and whatever is accepted is the number of
+the result (so every other integer is rejected) -/
+theorem conv_numbering_inverse (ty : Conv.PrimTy) (w : Weekday) (m : Month) :
+    Conv.Weekday.fromPrim ty w.num_days_from_monday = some w ∧
+    Conv.Weekday.try_from_u8 w.num_days_from_monday = some w ∧
+    Conv.Month.fromPrim ty m.number_from_month = some m ∧
+    Conv.Month.try_from_u8 m.number_from_month = some m ∧
+    (∀ n : Int, Conv.Weekday.fromPrim ty n = some w ∨ Conv.Weekday.try_from_u8 n = some w →
+      n = w.num_days_from_monday) ∧
+    (∀ n : Int, Conv.Month.fromPrim ty n = some m ∨ Conv.Month.try_from_u8 n = some m →
+      n = m.number_from_month) := by
+  have hn := (weekday_numbering w).1
+  refine ⟨?_, ?_, ?_, ?_, ?_, ?_⟩
+  · rw [hn]; exact (weekday_from_prim_iff ty _ w).mpr rfl
+  · rw [hn]; exact (weekday_try_from_u8_iff _ w).mpr rfl
+  · exact (month_from_prim_iff ty _ m).mpr rfl
+  · exact (month_try_from_u8_iff _ m).mpr rfl
+  · intro n h
+    rw [hn]
+    rcases h with h | h
+    · exact (weekday_from_prim_iff ty n w).mp h
+    · exact (weekday_try_from_u8_iff n w).mp h
+  · intro n h
+    rcases h with h | h
+    · exact (month_from_prim_iff ty n m).mp h
+    · exact (month_try_from_u8_iff n m).mp h
+
 /-- non-vacuity: extremes of the wide types are rejected, the numbers accepted -/
 example : Conv.Weekday.fromPrim .u128 340282366920938463463374607431768211455 = none ∧
     Conv.Weekday.fromPrim .i128 I128_MIN = none ∧ Conv.Weekday.fromPrim .i8 3 = some .thu ∧
@@ -812,6 +840,53 @@ theorem set_text_injective (a b : Nat) (ha : a < 128) (hb : b < 128) :
 
 example : setDisplay 81 = asciiBytes "[Mon, Fri, Sun]" ∧ setDisplay 0 = asciiBytes "[]" ∧
     setDebug 2 = asciiBytes "WeekdaySet(0000010)" := by decide
+
+/-! ## G8: `Display for Weekday` under format flags (`f.pad`) -/
+
+/-- without flags the bare name; otherwise the name cut to the precision, filled up to the width on
+the side(s) the alignment says (centre: the odd one goes to the right) -/
+theorem weekday_display_fmt_spec (w : Weekday) (width prec : Option Nat) (align : Align) (fill : Nat) :
+    w.display_fmt none none align fill = w.display ∧
+    ∃ pre post, w.display_fmt width prec align fill =
+        List.replicate pre fill ++ w.display.take (prec.getD 3) ++ List.replicate post fill ∧
+      pre + post = width.getD 0 - min 3 (prec.getD 3) ∧
+      (align = .left → pre = 0) ∧ (align = .right → post = 0) ∧
+      (align = .center → pre ≤ post ∧ post ≤ pre + 1) := by
+  refine ⟨rfl, ?_⟩
+  have hl : w.display.length = 3 := by cases w <;> rfl
+  have ht : fmtCut w.display prec = w.display.take (prec.getD 3) := by
+    cases prec with
+    | none => show w.display = w.display.take 3; rw [← hl, List.take_length]
+    | some p => rfl
+  have htl : (w.display.take (prec.getD 3)).length = min 3 (prec.getD 3) := by
+    rw [List.length_take, hl, Nat.min_comm]
+  unfold Weekday.display_fmt fmtPad
+  rw [ht]
+  generalize w.display.take (prec.getD 3) = t at htl
+  have triv : t = List.replicate 0 fill ++ t ++ List.replicate 0 fill := by simp
+  cases width with
+  | none =>
+    exact ⟨0, 0, triv, by simp, fun _ => rfl, fun _ => rfl, fun _ => ⟨Nat.le_refl _, Nat.le_succ _⟩⟩
+  | some wd =>
+    show ∃ pre post, (if t.length < wd then _ else t) = _ ∧ _
+    by_cases hlt : t.length < wd
+    · rw [if_pos hlt]
+      cases align with
+      | left =>
+        exact ⟨0, wd - t.length, by simp, by rw [Option.getD_some]; omega, fun _ => rfl,
+          (fun h => by cases h), (fun h => by cases h)⟩
+      | right =>
+        exact ⟨wd - t.length, 0, by simp, by rw [Option.getD_some]; omega, (fun h => by cases h),
+          fun _ => rfl, (fun h => by cases h)⟩
+      | center =>
+        exact ⟨(wd - t.length) / 2, (wd - t.length + 1) / 2, rfl, by rw [Option.getD_some]; omega,
+          (fun h => by cases h), (fun h => by cases h), fun _ => ⟨by omega, by omega⟩⟩
+    · rw [if_neg hlt]
+      exact ⟨0, 0, triv, by rw [Option.getD_some]; omega, fun _ => rfl, fun _ => rfl,
+        fun _ => ⟨Nat.le_refl _, Nat.le_succ _⟩⟩
+
+example : Weekday.wed.display_fmt (some 6) (some 2) .center 42 = asciiBytes "**We**" ∧
+    Weekday.wed.display_fmt (some 5) none .right 32 = asciiBytes "  Wed" := by decide
 
 
 end Chrono.Props.C19
